@@ -205,6 +205,13 @@ func runC08(r *vf.Run) {
 				r.Sample("history", map[string]any{"expr": e.String(), "group_by": fmt.Sprintf("%q", gb), "executed_on": history})
 			}
 		}
+		var ts []c08Target
+		for _, t := range targets {
+			ts = append(ts, c08Target{t.name, t.ds, t.idx})
+		}
+		if p, msg, stack := vf.Try(func() { c08SharedParts(r, id, r.RNG(id+"/shared-parts"), A, B, ts) }); p {
+			r.Violation(id+"/shared-parts", "panic", map[string]any{"panic": msg, "stack": head(stack, 3000)})
+		}
 		r.Count("dataset_pairs", 1)
 	})
 	racePass(r)
